@@ -131,3 +131,29 @@ Fixpoint first_bad_disjoint (d : dstore) (last : dsnap) (i : N) (l : list dstep_
       if res_eqb r' r && dsnap_eqb d' cur then first_bad_disjoint d' cur (N.succ i) rest
       else Some (i, r', d')
   end.
+
+(* ---------- C04's correspondence (see Model/Store.v): state injection, isolation-relevant observables ---------- *)
+Definition diso_obs := (op * res * option dsnap * list (N * N))%type.     (* ..., graph_node_ids after the step *)
+
+Definition snap_get (sn : dsnap) (g : N) : nxg := match aget g sn with Some G => G | None => empty_nxg end.
+Definition ctr_get (c : list (N * N)) (g : N) : N := match aget g c with Some x => x | None => 1 end.
+
+Definition dalloc_ok (cur : dsnap) (cc : list (N * N)) : bool :=
+  forallb (fun e => let ids := map fst (gn (snd e)) in
+                    forallb (fun i => N.ltb i (ctr_get cc (fst e))) ids && nodupN_b ids) cur.
+
+Fixpoint check_iso_disjoint_from (prev : dsnap) (pc : list (N * N)) (l : list diso_obs) : bool :=
+  match l with
+  | [] => true
+  | (o, r, snap, cc) :: rest =>
+      let cur := match snap with Some x => x | None => prev end in
+      let '(d', r') := dstep (mkD prev pc) o in
+      let gids := map fst prev ++ map fst cur ++ map fst (dgs d') in
+      dalloc_ok cur cc &&
+      (if storage_op o
+       then res_eqb r' r && forallb (fun g => nxg_eqb (dget d' g) (snap_get cur g) &&
+                                              (match gn (snap_get cur g) with [] => true | _ => N.eqb (dcounter d' g) (ctr_get cc g) end)) gids
+       else forallb (fun g => writes_gid o g || nxg_eqb (dget d' g) (snap_get cur g)) gids) &&
+      check_iso_disjoint_from cur cc rest
+  end.
+Definition check_iso_disjoint (l : list diso_obs) : bool := check_iso_disjoint_from [] [] l.
